@@ -58,6 +58,14 @@ pub broadcast proof fn lemma_ins_spaces(o: Seq<char>, i: Seq<char>, n: int)
     }
 }
 
+/// appending a one-character string is a push (so `push_str("\\n")` and `push('\\n')` give the same shape)
+pub broadcast proof fn lemma_add_singleton(o: Seq<char>, s: Seq<char>)
+    requires s.len() == 1
+    ensures #[trigger] (o + s) == o.push(s[0])
+{
+    assert(o + s =~= o.push(s[0]));
+}
+
 pub proof fn lemma_spaces_add(a: int, b: int)
     requires a >= 0, b >= 0
     ensures spaces(a) + spaces(b) =~= spaces(a + b)
